@@ -19,7 +19,7 @@ type PropConfig struct {
 	Units         []string `json:"units"`
 	NotDecided    []string `json:"not_decided"`
 	Assumptions   []string `json:"assumptions"`
-	Bounded       []string `json:"bounded"`
+	Bounded       []BoundedSpec `json:"bounded"`
 	Writers       []WriterSpec `json:"writers"`
 	// reachability canaries that are expected to be unsat: code that is dead on the unchanged
 	// tree for a stated reason (name -> reason); listed in the evidence, never an alarm
@@ -374,6 +374,27 @@ func cmdCheck(args []string) int {
 				continue
 			}
 		}
+		if o == nil && strings.Contains(n, "/loop") {
+			// obligations of a loop that no longer exists (see verify.go): dropped if the unit
+			// was generated without errors
+			skip := false
+			for _, u := range units {
+				if len(u.errs) != 0 || !strings.HasPrefix(n, u.name+"/loop") {
+					continue
+				}
+				rest := n[len(u.name)+len("/loop"):]
+				k := 0
+				fmt.Sscanf(rest, "%d", &k)
+				if u.goneLoops[k] {
+					skip = true
+				}
+			}
+			if skip {
+				nClaimed--
+				gone = append(gone, n)
+				continue
+			}
+		}
 		if o == nil && strings.Contains(n, "/at[") {
 			// a clause of a site the contract declares optional: the site may be absent as long
 			// as the function was generated without errors (its ensures carry the property)
@@ -527,6 +548,57 @@ func cmdCheck(args []string) int {
 		fmt.Printf("  obligation %s: %s\n", fl.name, fl.reason)
 	}
 
+	// bounded stand-ins (see bounded.go): run on the real code, labelled bounded, never counted as proved
+	var boundedResults []BoundedResult
+	if *only == "" {
+		for _, bs := range cfg.Bounded {
+			bdir := outBase
+			if bdir == "" {
+				bdir = filepath.Join(verifRoot, "out")
+			}
+			br := runBounded(bs, *repo, *tier, filepath.Join(bdir, "bounded"))
+			boundedResults = append(boundedResults, br)
+			obName := "bounded/" + bs.Name
+			switch br.Result {
+			case "held":
+				fmt.Printf("  bounded %s: held on %d cases (%d distinct) in %.1fs\n", bs.Name, br.Cases, br.Distinct, br.Secs)
+			case "failed":
+				unlisted := 0
+				for fi, in := range br.Failing {
+					listed := false
+					for _, k := range known.Findings {
+						if k.Property == *prop && k.Status == "open" && k.Obligation == obName && (k.Witness == in || strings.HasPrefix(in, k.Witness+" ")) {
+							fmt.Printf("KNOWN-FINDING: property=%s %s input=%s %s\n", *prop, obName, in, k.What)
+							listed = true
+						}
+					}
+					if listed {
+						continue
+					}
+					unlisted++
+					violations++
+					exit = 1
+					info := map[string]any{"property": *prop, "obligation": obName, "kind": "bounded", "clause": bs.Clause, "bound": br.Bound,
+						"failing_input": in, "reproduce": br.Cmd, "reason": "the real code fails the clause on this input (bounded check)", "output": br.Output}
+					rp := writeReplay(*prop, fmt.Sprintf("%s/failing-input-%d", obName, fi), info)
+					fmt.Printf("VIOLATION property=%s replay=%s\n", *prop, rp)
+					fmt.Printf("  bounded %s: fails on input %s\n", bs.Name, in)
+				}
+				if unlisted == 0 {
+					boundedResults[len(boundedResults)-1].Result = "known findings only"
+				}
+			default:
+				violations++
+				exit = 1
+				info := map[string]any{"property": *prop, "obligation": obName, "kind": "bounded", "clause": bs.Clause, "reproduce": br.Cmd,
+					"reason": "the bounded check did not run to completion", "output": br.Output}
+				rp := writeReplay(*prop, obName, info)
+				fmt.Printf("VIOLATION property=%s replay=%s no-failing-input-found\n", *prop, rp)
+				fmt.Printf("  bounded %s: did not complete: %s\n", bs.Name, firstLines(br.Output, 3))
+			}
+		}
+	}
+
 	// evidence
 	wall := time.Since(t0).Seconds()
 	if !*noEvidence && *only == "" {
@@ -549,6 +621,9 @@ func cmdCheck(args []string) int {
 				}
 			}
 			assumes = append(assumes, u.usedAssumes...)
+			for _, nt := range u.notes {
+				assumes = append(assumes, u.name+": "+nt)
+			}
 		}
 		var samples []any
 		cnt := 0
@@ -605,7 +680,7 @@ func cmdCheck(args []string) int {
 				"samples":                  samples,
 				"attempted_not_claimed":    attempted,
 				"claimed_but_no_longer_in_source": gone,
-				"bounded_obligations":      cfg.Bounded,
+				"bounded_obligations":      boundedResults,
 				"inlined_callees":          sortedKeys(inlinedFns),
 				"not_decided":              cfg.NotDecided,
 				"dead_sites_expected":      cfg.DeadSites,
@@ -653,4 +728,12 @@ func writeReplay(prop, name string, info map[string]any) string {
 	data, _ := json.MarshalIndent(info, "", " ")
 	os.WriteFile(p, append(data, '\n'), 0o644)
 	return p
+}
+
+func firstLines(s string, n int) string {
+	ls := strings.Split(strings.TrimSpace(s), "\n")
+	if len(ls) > n {
+		ls = ls[len(ls)-n:]
+	}
+	return strings.Join(ls, " | ")
 }
